@@ -111,7 +111,7 @@ class HeapSpec(SeqSpec):
                     ops.append([k, rng.randrange(nit)])
                 else:
                     ops.append([k])
-            cases.append({"component": "heap", "cfg": {"mode": mode, "initial": init}, "ops": ops})
+            cases.append({"component": "heap", "cfg": {"mode": mode, "initial": init, "cmpscale": rng.choice([0, 0, 1, 2])}, "ops": ops})
         return cases
 
     def op_term(self, op):
@@ -208,7 +208,7 @@ class PQSpec(SeqSpec):
                     ops.append([k, rng.randrange(nit)])
                 else:
                     ops.append([k])
-            cases.append({"component": "pq", "cfg": {"mode": mode, "initial": init}, "ops": ops})
+            cases.append({"component": "pq", "cfg": {"mode": mode, "initial": init, "cmpscale": rng.choice([0, 0, 1, 2])}, "ops": ops})
         return cases
 
     def op_term(self, op):
